@@ -21,7 +21,8 @@ from .common import cN, cZ, cnat, cbool, clist, copt, cstr
 THEOREMS = [
     "headers_as_configured", "sent_as_configured", "entries_named_and_qualified_by_their_declaration",
     "list_entry_one_element_per_item", "plain_value_one_element", "positional_none_leaves_part_out",
-    "surplus_values_skipped_elements_kept",
+    "surplus_values_skipped_elements_kept", "element_value_sent_verbatim",
+    "request_parts_are_the_input_side", "reply_header_parts_not_in_request",
     "caller_objects_untouched", "repeat_same", "wsse_one_security", "wsse_timestamps_lexical",
     "repaired_is_current", "list_header_regression", "surplus_then_element_regression",
     "positional_none_regression", "positional_none_type_part_regression",
@@ -46,6 +47,7 @@ KEY_SURPLUS = "C17:element-after-surplus-values-dropped"
 KEY_NONE = "C17:positional-none-sends-empty"
 KEY_NONE_TYPE = "C17:positional-none-type-part-raises"
 KEY_REBIND = "C17:ready-made-element-prefix-rebinding-captured"
+KEY_REPLY_PART = "C17:reply-header-part-sent-in-request"
 
 # The four defects repaired in /repo (02a92ff, dfdc017, c4ebdf6), in the order of the switches of
 # `quirks` in coq/C17/Headers.v (q_list, q_skipped, q_break, q_none).  The model no longer has any
@@ -137,6 +139,8 @@ def value_expr(v):
     """Python source rebuilding an abstract value (family conventions)."""
     if v is None:
         return "None"
+    if isinstance(v, tuple) and v[0] == "elem":
+        return "('elem', %d)" % v[1]
     if isinstance(v, tuple) and v[0] == "leaf":
         return "('leaf', %r, %r)" % (v[1], v[2])
     if isinstance(v, list):
@@ -273,31 +277,53 @@ def invoke(client, cname):
     return getattr(client.service, cname)()
 
 
-def render_wsdl(S, ops, R=None, ops2=None):
+def render_wsdl(S, ops, R=None, ops2=None, outs=None):
     """ops: [(name, [Part])]; every operation has an empty input message and
     one soap:header per declared part, in order.  ops2: optional {name: [Part]} — the
     same port type is then also exposed through a second binding `b2` / port `port2`
-    that declares those header parts (taken from the same header message) instead."""
+    that declares those header parts (taken from the same header message) instead.
+    outs: optional {name: [Part]} — the operation then has an (empty) output message and
+    its wsdl:output declares one soap:header per listed part, in order: a Part that is also
+    an input part refers to the same message part, any other lives in a message of its own."""
     R = R or F.Renderer(S)
     p0 = R.prefixes[0]
     globals_ = dict((i, []) for i in range(len(S.namespaces)))
     msgs, pops, bops = [], [], []
-    for name, parts in ops:
+    outs = outs or {}
+    declared = set()
+
+    def message_parts(parts):
         hparts = []
         for p in parts:
-            if p.kind == "elem":
+            if p.kind == "elem" and (p.elem.ns, p.name) in declared:
+                hparts.append('<wsdl:part name="%s" element="%s:%s"/>' % (p.partname, R.prefixes[p.elem.ns], p.name))
+            elif p.kind == "elem":
+                declared.add((p.elem.ns, p.name))
                 globals_[p.elem.ns].append('      <xsd:element name="%s" type="%s"%s/>' % (
                     p.name, R.tref(p.elem.tref), ' nillable="true"' if p.elem.nillable else ""))
                 hparts.append('<wsdl:part name="%s" element="%s:%s"/>' % (p.partname, R.prefixes[p.elem.ns], p.name))
             else:
                 hparts.append('<wsdl:part name="%s" type="%s"/>' % (p.partname, R.tref(p.elem.tref)))
+        return "".join(hparts)
+    for name, parts in ops:
         msgs.append('  <wsdl:message name="%sIn"/>' % name)
-        msgs.append('  <wsdl:message name="%sHdr">%s</wsdl:message>' % (name, "".join(hparts)))
-        pops.append('    <wsdl:operation name="%s"><wsdl:input message="%s:%sIn"/></wsdl:operation>' % (name, p0, name))
+        msgs.append('  <wsdl:message name="%sHdr">%s</wsdl:message>' % (name, message_parts(parts)))
         hdrs = "".join('<soap:header message="%s:%sHdr" part="%s" use="literal"/>' % (p0, name, p.partname)
                        for p in parts)
+        pt_out = b_out = ""
+        if name in outs:
+            own = [p for p in outs[name] if p not in parts]
+            msgs.append('  <wsdl:message name="%sOut"/>' % name)
+            msgs.append('  <wsdl:message name="%sOutHdr">%s</wsdl:message>' % (name, message_parts(own)))
+            pt_out = '<wsdl:output message="%s:%sOut"/>' % (p0, name)
+            b_out = '<wsdl:output><soap:body use="literal"/>%s</wsdl:output>' % "".join(
+                '<soap:header message="%s:%s%s" part="%s" use="literal"/>'
+                % (p0, name, "Hdr" if p in parts else "OutHdr", p.partname) for p in outs[name])
+        pops.append('    <wsdl:operation name="%s"><wsdl:input message="%s:%sIn"/>%s</wsdl:operation>'
+                    % (name, p0, name, pt_out))
         bops.append('    <wsdl:operation name="%s"><soap:operation soapAction="act_%s" style="document"/>'
-                    '<wsdl:input><soap:body use="literal"/>%s</wsdl:input></wsdl:operation>' % (name, name, hdrs))
+                    '<wsdl:input><soap:body use="literal"/>%s</wsdl:input>%s</wsdl:operation>'
+                    % (name, name, hdrs, b_out))
     second_binding = second_port = ""
     if ops2 is not None:
         bops2 = []
@@ -305,7 +331,9 @@ def render_wsdl(S, ops, R=None, ops2=None):
             hdrs = "".join('<soap:header message="%s:%sHdr" part="%s" use="literal"/>' % (p0, name, p.partname)
                            for p in ops2[name])
             bops2.append('    <wsdl:operation name="%s"><soap:operation soapAction="act2_%s" style="document"/>'
-                         '<wsdl:input><soap:body use="literal"/>%s</wsdl:input></wsdl:operation>' % (name, name, hdrs))
+                         '<wsdl:input><soap:body use="literal"/>%s</wsdl:input>%s</wsdl:operation>'
+                         % (name, name, hdrs, '<wsdl:output><soap:body use="literal"/></wsdl:output>'
+                            if name in outs else ""))
         second_binding = ('  <wsdl:binding name="b2" type="%s:pt">\n'
                           '    <soap:binding style="document" transport="http://schemas.xmlsoap.org/soap/http"/>\n%s\n'
                           '  </wsdl:binding>\n' % (p0, "\n".join(bops2)))
@@ -347,7 +375,8 @@ def gen_part_value(rng, S, part):
 class Headers(object):
     """Abstract soapheaders: kind 'unset' | 'one' | 'seq' | 'dict'.
     items (one/seq): ('elem', index into xts) | ('val', abstract value);
-    items (dict): (key, abstract value).  container: 'tuple' | 'list'."""
+    items (dict): (key, abstract value | ('elem', index into xts): a ready-made Element as the
+    VALUE of that part).  container: 'tuple' | 'list'."""
 
     def __init__(self, kind, items=(), xts=(), container="tuple"):
         self.kind, self.items, self.xts, self.container = kind, list(items), list(xts), container
@@ -363,8 +392,19 @@ class Headers(object):
                                                  self.container)
 
 
-def gen_headers(rng, S, parts, force=None):
-    """force: None | 'list' | 'surplus' | 'none' — make that shape certain."""
+def gen_xt_for_part(rng, S, part):
+    """a ready-made element written the way the declared part would be (its name and
+    namespace), under a prefix of the caller's own that its children use too"""
+    uri = S.namespaces[part.elem.ns][0] if part.kind == "elem" else None
+    prefix = rng.choice(["x", "h", "own"]) if uri else None
+    kids = [XT("user%d" % j, prefix, uri, [], rng.choice(["bob", "a&b", "7"]), []) for j in range(rng.randrange(3))]
+    attrs = [(None, None, "id", "7")] if rng.random() < 0.5 else []
+    return XT(part.name, prefix, uri, attrs, None if kids else rng.choice([None, "tok"]), kids)
+
+
+def gen_headers(rng, S, parts, force=None, out_parts=()):
+    """force: None | 'list' | 'surplus' | 'none' | 'elemvalue' — make that shape certain.
+    out_parts: header parts the operation declares for its REPLY only."""
     k = len(parts)
     xts = []
 
@@ -408,13 +448,25 @@ def gen_headers(rng, S, parts, force=None):
             # a plain dict would BE the dict form of soapheaders: a single object value is a factory object
             v = F.VObj((parts[0].elem.tref[1], parts[0].elem.tref[2]), v.fields)
         return Headers("one", [("val", v)], xts)
-    if force is None and r < 0.50:
+    if (force is None and r < 0.50) or (force == "elemvalue" and parts):
         items = []
         for j, p in enumerate(parts):
             q = rng.random()
-            if q < 0.65:
+            if q < 0.15 or (force == "elemvalue" and not any(isinstance(v, tuple) and v[0] == "elem" for _, v in items)
+                            and (q < 0.5 or j == k - 1)):
+                # a ready-made Element as the value of the part (now and then the same object for two parts)
+                if rng.random() < 0.5:
+                    xts.append(gen_xt_for_part(rng, S, p))
+                    items.append((p.key(), ("elem", len(xts) - 1)))
+                else:
+                    items.append((p.key(), elem_item()))
+            elif q < 0.70:
                 items.append((p.key(), plain(j)))
             # else: key absent
+        for p in out_parts:
+            # a client-wide dict also carries values meant for other operations / the reply's parts
+            if p not in parts and rng.random() < 0.6:
+                items.append((p.key(), gen_part_value(rng, S, p)))
         if rng.random() < 0.08:
             items.append(("nosuchpart", ("leaf", "zz", "zz")))
         rng.shuffle(items)
@@ -515,7 +567,7 @@ def build_headers(client, S, H):
     if H.kind == "unset":
         return (), els, vals
     if H.kind == "dict":
-        return dict((k, val(v)) for k, v in H.items), els, vals
+        return dict((k, els[v[1]] if isinstance(v, tuple) and v[0] == "elem" else val(v)) for k, v in H.items), els, vals
     objs = [els[x[1]] if x[0] == "elem" else val(x[1]) for x in H.items]
     if H.kind == "one":
         return objs[0], els, vals
@@ -584,8 +636,9 @@ def c_headers(P, H):
     if H.kind == "one":
         return "(SHOne %s)" % it(H.items[0])
     if H.kind == "dict":
-        return "(SHDict %s)" % clist(["(%s, %s)" % (cN(P.I(k)), P.value(v)) for k, v in H.items],
-                                     "name * value")
+        return "(SHDict %s)" % clist(
+            ["(%s, %s)" % (cN(P.I(k)), "(HElem %s)" % cnat(v[1]) if isinstance(v, tuple) and v[0] == "elem"
+                           else "(HVal %s)" % P.value(v)) for k, v in H.items], "name * hval")
     return "(SHSeq %s)" % clist([it(x) for x in H.items], "hval")
 
 
@@ -639,7 +692,7 @@ def features(parts, H):
     elif H.kind == "dict":
         d = dict(H.items)
         for p in parts:
-            if d.get(p.key()) is not None:
+            if d.get(p.key()) is not None and not (isinstance(d[p.key()], tuple) and d[p.key()][0] == "elem"):
                 entry(p, d[p.key()])
     return f
 
@@ -665,9 +718,11 @@ class Runner(object):
         self.ck = ck
         self.cases = []       # (coq term, meta)
 
-    def run_config(self, tag, client, wsdl, S, ops, H, W, calls, xstq):
-        """ops: {name: [Part]}; calls: list of operation names (same objects
+    def run_config(self, tag, client, wsdl, S, ops, H, W, calls, xstq, outs=None):
+        """ops: {name: [Part]} (the soap:header parts of wsdl:input, as rendered); outs: {name: [Part]}
+        (those of wsdl:output); calls: list of operation names (same objects
         reused for every call).  Appends one case per operation called."""
+        outs = outs or {}
         from . import sudsutil as U
         ck = self.ck
         try:
@@ -766,12 +821,14 @@ class Runner(object):
             if not ok:
                 py_findings.append(("C17:caller-object-altered", "a caller-supplied Element can no longer be serialised after the call"))
                 continue
-            term = "(mkH %s %s %s %s %s %s %s)" % (
+            out_parts = outs.get(cname, [])
+            term = "(mkH %s %s %s %s %s %s %s %s)" % (
                 P.schema(), cbool(xstq), clist([c_part(P, p) for p in parts], "edecl"),
+                clist([c_part(P, p) for p in out_parts], "edecl"),
                 clist([F.node_to_coq(ns, I, n) for n in before_nodes], "xnode"),
                 c_wsse(sec, I), c_headers(P, H), clist(ccalls, "icall"))
             meta = {"wsdl": wsdl, "operation": cname, "calls": calls, "headers": H, "wsse": W, "xstq": xstq,
-                    "parts": parts, "results": [r[0][:2] if r[0][0] == "err" else ("ok",) for r in results],
+                    "parts": parts, "out_parts": out_parts, "results": [r[0][:2] if r[0][0] == "err" else ("ok",) for r in results],
                     "requests": raws, "features": features(parts, H), "py": py_findings, "term": term}
             self.cases.append((term, meta))
             py_findings = []       # reported once
@@ -784,6 +841,14 @@ class Runner(object):
                 ck.count("wsse")
             if any(x[0] == "elem" for x in H.items if H.kind != "dict"):
                 ck.count("with-ready-made-elements")
+            if H.kind == "dict" and any(isinstance(v, tuple) and v[0] == "elem" for _, v in H.items):
+                ck.count("with-ready-made-element-as-part-value")
+            if out_parts:
+                ck.count("operation-declares-reply-header-parts")
+                keys = set(k_ for k_, _ in H.items) if H.kind == "dict" else set()
+                nplain = sum(1 for x in H.items if x[0] == "val") if H.kind in ("one", "seq") else 0
+                if any(p.key() in keys for p in out_parts) or nplain > len(parts):
+                    ck.count("reply-header-part-has-a-matching-value")
             for r, _ in results:
                 ck.count("result-" + (r[0] if r[0] == "ok" else r[1]))
 
@@ -792,7 +857,8 @@ def payload_of(meta):
     return {"wsdl": meta["wsdl"].decode("utf-8"), "operation": meta["operation"], "calls": meta["calls"],
             "soapheaders": meta["headers"].expr(), "wsse": repr([meta["wsse"][0], [t.expr() for t in meta["wsse"][1]]])
             if meta["wsse"] else None, "xstq": meta["xstq"], "requests": meta["requests"][:4],
-            "declared_parts": [(p.kind, p.name) for p in meta["parts"]], "coq_case": meta["term"][:6000],
+            "declared_parts": [(p.kind, p.name) for p in meta["parts"]],
+            "declared_reply_parts": [(p.kind, p.name) for p in meta["out_parts"]], "coq_case": meta["term"][:6000],
             "namespaces": None}
 
 
@@ -809,14 +875,18 @@ def fixed_interface():
     parts = [Part("elem", "H1", F.Elem("H1", 0, True, ("b", "string")), "p1"),
              Part("elem", "H2", F.Elem("H2", 1, True, ("n", 0, "T0"), nillable=True), "p2"),
              Part("type", "hp3", F.Elem("hp3", 0, False, ("b", "int"), opt=True), "hp3")]
-    ops = [("op0", parts), ("op1", parts[:1]), ("op2", [])]
-    return S, ops
+    # op3 ("login"): H1 goes in; the reply carries H1 again and a session header R1 of its own
+    R1 = Part("elem", "R1", F.Elem("R1", 1, True, ("b", "string")), "r1")
+    ops = [("op0", parts), ("op1", parts[:1]), ("op2", []), ("op3", parts[:1])]
+    outs = {"op3": [R1, parts[0]], "op1": [parts[1]]}
+    return S, ops, outs
 
 
 def fixed_configs():
     leaf = lambda s: ("leaf", s, s)   # noqa
     obj = F.VObj(None, [("e1", leaf("v"))])
     x = XT("x", "p", "urn:q", [(None, None, "k", "v")], None, [XT("y", None, None, [], "t", [])])
+    xa = XT("H1", "own", "urn:c17:a", [(None, None, "id", "7")], None, [XT("user", "own", "urn:c17:a", [], "bob", [])])
     dt = ("dt", (2020, 1, 2, 3, 4, 5, 678), None)
     sec = (True, [Tok("user", username="u<ser", password="p&w", nonce="abc", enc=True, created=dt),
                   Tok("user", username="bob", digest="DIG=="),
@@ -839,6 +909,14 @@ def fixed_configs():
         ("op0", Headers("dict", [("H1", [leaf("a"), leaf("b")]), ("hp3", [None]), ("H2", [])], []), None),
         ("op0", Headers("seq", [("val", None), ("val", None), ("val", None), ("val", leaf("s")), ("elem", 0),
                                 ("val", None), ("elem", 0)], [x], "tuple"), sec),
+        # the reply's header parts (op3: R1 and H1 again; op1: H2) are not the request's: a client-wide dict
+        # that has values for them, a tuple longer than the declared input parts
+        ("op3", Headers("dict", [("H1", leaf("secret")), ("R1", leaf("S-1"))], []), None),
+        ("op3", Headers("seq", [("val", leaf("secret")), ("val", leaf("S-1"))], [], "tuple"), None),
+        ("op1", Headers("dict", [("H2", obj), ("H1", leaf("a"))], []), sec),
+        # ready-made Elements as VALUES of declared parts (one object for two parts), reused across calls
+        ("op0", Headers("dict", [("H1", ("elem", 1)), ("hp3", ("elem", 0)), ("H2", ("elem", 1))], [x, xa]), None),
+        ("op0", Headers("dict", [("H2", ("elem", 0)), ("H1", leaf("a")), ("hp3", ("leaf", 7, "7"))], [xa]), sec),
     ]
 
 
@@ -894,6 +972,55 @@ def probe_rebinding(ck, client, wsdl):
                               "how": "client.set_options(soapheaders=[element]); client.service.op2()"})
 
 
+def probe_element_items(ck, client, wsdl):
+    """Ready-made Elements as ITEMS of a list-valued entry (positional-by-part or dict value): the
+    model's values have no Element items, so these shapes are compared here, outside Coq — every
+    item's element is sent as it is in its position, the same on every call, and the caller's
+    objects read the same and stay detached after each call."""
+    from . import sudsutil as U
+
+    def mk():
+        return XT("H1", "own", "urn:c17:a", [(None, None, "id", "7")], None,
+                  [XT("user", "own", "urn:c17:a", [], "bob", []), XT("plain", None, None, [], "t", [])]).build()
+    h1 = lambda t: U.expat_parse(('<H1 xmlns="urn:c17:a">%s</H1>' % t).encode("utf-8")).canon()   # noqa
+    hp3 = lambda t: U.expat_parse(('<hp3>%s</hp3>' % t).encode("utf-8")).canon()   # noqa
+    shapes = [
+        ("dict-value-list", lambda e: {"H1": [e, "a", e]}, lambda x: [x, h1("a"), x]),
+        ("positional-list", lambda e: [[e, "a"], e, {"e1": "v"}, [3, e]],
+         lambda x: [x, h1("a"), x, U.expat_parse(b'<H2 xmlns="urn:c17:b"><e1 xmlns="urn:c17:a">v</e1></H2>').canon(),
+                    hp3("3"), x]),
+        ("single-list", lambda e: ([e],), lambda x: [x]),
+    ]
+    for name, mksh, expect in shapes:
+        e = mk()
+        before_txt = str(e)
+        x = U.expat_parse(before_txt.encode("utf-8")).canon()
+        sh = mksh(e)
+        client.set_options(soapheaders=sh, wsse=None)
+        ck.seen(("element-item-probe", name))
+        ck.count("element-item-probes")
+        for call in range(3):
+            pl = {"shape": name, "soapheaders": repr(sh)[:300], "call": call + 1, "wsdl": wsdl.decode("utf-8"),
+                  "how": "client.set_options(soapheaders=<shape with one Element object>); client.service.op0() x3"}
+            try:
+                raw = client.service.op0().envelope
+                kids = [k.canon() for k in U.expat_parse(raw).find("Header", F.SOAPENV).elements()]
+                pl["request"] = raw.decode("utf-8")
+            except Exception as ex:  # noqa
+                ck.failing_input("C17:ready-made-element-item", "a list-valued header entry with a ready-made Element "
+                                 "item cannot be sent (%s, call %d): %r" % (name, call + 1, ex), pl)
+                break
+            if str(e) != before_txt or e.parent is not None:
+                ck.failing_input("C17:caller-object-altered", "a caller-supplied Element given as an item of a "
+                                 "list-valued header entry is altered by sending (%s, call %d)" % (name, call + 1), pl)
+                break
+            if kids != expect(x):
+                ck.failing_input("C17:repeat-differs" if call else "C17:ready-made-element-item",
+                                 "a list-valued header entry with ready-made Element items is not sent as configured "
+                                 "(%s, call %d): %s" % (name, call + 1, kids), pl)
+                break
+
+
 # ---------------------------------------------------------------------------
 # the check
 # ---------------------------------------------------------------------------
@@ -921,6 +1048,13 @@ def run(ck):
         "implementation fails the specification the way the old code did: reported as a failing input under "
         "C17:list-valued-header-entry / C17:positional-none-type-part-raises / "
         "C17:element-after-surplus-values-dropped / C17:positional-none-sends-empty",
+        "modelled: wsdl.Binding.add_operations registering soap:header children of wsdl:input / wsdl:output on "
+        "their own side and headpart_types reading the input side for a request (the case hands BOTH lists to "
+        "Coq as rendered in the WSDL; the specification works from the input side only); a ready-made Element as "
+        "the VALUE of a declared part in the dict form (marshaller -> ElementAppender -> ElementWrapper: sent as it "
+        "is, the caller's object untouched)",
+        "outside the Coq model, compared in Python: ready-made Elements as ITEMS of a list-valued entry (3 shapes "
+        "x 3 calls: sent as they are in their position, same on every call, caller's object unchanged)",
         "covered by correspondence only: wsdl.Binding.header/__resolveheaders (every generated soap:header must "
         "resolve to the declared part, in order), prefix handling (setPrefix/promotePrefixes: infoset compared), "
         "setnonce/setcreated (the token fields are read back at call time; generated values checked for shape)",
@@ -941,13 +1075,13 @@ def run(ck):
     quick = ck.tier == "quick"
 
     # ---- fixed interface (every known shape re-observed on every run)
-    S, ops = fixed_interface()
-    wsdl = render_wsdl(S, ops)
+    S, ops, outs = fixed_interface()
+    wsdl = render_wsdl(S, ops, outs=outs)
     opsd = dict(ops)
     try:
         client = U.client_from_wsdl(wsdl, nosend=True)
         for (opname, H, W) in fixed_configs():
-            R.run_config(-1, client, wsdl, S, opsd, H, W, [opname, opname], True)
+            R.run_config(-1, client, wsdl, S, opsd, H, W, [opname, opname, opname], True, outs)
     except Exception as e:  # noqa
         ck.failing_input("C17:wsdl-load", "the hand-written WSDL with three header parts cannot be used: %r" % (e,),
                          {"wsdl": wsdl.decode("utf-8"), "error": repr(e)})
@@ -958,6 +1092,11 @@ def run(ck):
         probe_rebinding(ck, client, wsdl)
     except Exception as e:  # noqa
         ck.unproved("the prefix-rebinding probe could not be carried out: %r" % (e,), {"error": repr(e)})
+
+    try:
+        probe_element_items(ck, client, wsdl)
+    except Exception as e:  # noqa
+        ck.unproved("the Element-item probe could not be carried out: %r" % (e,), {"error": repr(e)})
 
     # ---- generated interfaces
     n_schemas = 60 if quick else 300
@@ -973,7 +1112,18 @@ def run(ck):
         ops2 = None
         if si % 3 == 1 and any(parts for _, parts in ops):
             ops2 = dict((name, parts[:rng.randrange(len(parts))] if parts else []) for name, parts in ops)
-        wsdl = render_wsdl(S, ops, ops2=ops2)
+        # reply-side header declarations: about every second operation's wsdl:output declares soap:header
+        # parts too — some of its input parts again (any order) and/or parts of a message of its own
+        outs = {}
+        for name, parts in ops:
+            if rng.random() < 0.55:
+                shared = [p for p in parts if rng.random() < 0.4]
+                own = gen_parts(rng, S, rng.choice([0, 1, 1, 2]), counter)
+                both = shared + own
+                rng.shuffle(both)
+                if both:
+                    outs[name] = both
+        wsdl = render_wsdl(S, ops, ops2=ops2, outs=outs)
         opsd = dict(ops)
         if ops2 is not None:
             for name, parts2 in ops2.items():
@@ -990,10 +1140,12 @@ def run(ck):
             for rep in range(per_op):
                 force = None
                 if rep == 0 and parts:
-                    force = ["list", "surplus", "none"][si % 3]
-                H = gen_headers(rng, S, parts, force)
+                    force = ["list", "surplus", "none", "elemvalue"][si % 4]
+                H = gen_headers(rng, S, parts, force, outs.get(opname, ()))
                 W = gen_wsse(rng)
                 n = rng.randrange(1, maxlen + 1)
+                if H.xts:
+                    n = max(n, 2)       # caller objects: what a second call sends is part of the property
                 calls = [opname] * n
                 if n > 1 and rng.random() < 0.3:
                     calls[rng.randrange(1, n)] = other       # the same objects used for another operation
@@ -1009,7 +1161,7 @@ def run(ck):
                     if rng.random() < 0.5:
                         calls = [("port2/" + c_) if "/" not in c_ and c_ == opname else c_.split("/")[-1]
                                  if c_ == "port2/" + opname else c_ for c_ in calls]
-                R.run_config(si, client, wsdl, S, opsd, H, W, calls, rng.random() < 0.8)
+                R.run_config(si, client, wsdl, S, opsd, H, W, calls, rng.random() < 0.8, outs)
 
     cases = R.cases
     ck.extra["cases"] = len(cases)
@@ -1044,8 +1196,12 @@ def run(ck):
     if suspects:
         combos = quirk_combos()
         try:
-            qres = ck.run_cases("hdrq", PRE, "hcase", [c for c, _ in cases], [c_quirks(c) for c in combos], shard=40)
+            qres = ck.run_cases("hdrq", PRE, "hcase", [c for c, _ in cases],
+                                [c_quirks(c) for c in combos] + ["hdr_agrees_slip"], shard=40)
             bad = dict((c, set(qres[c_quirks(c)])) for c in combos)
+            # the reply's header parts registered as request parts?
+            slip_ok = not qres["hdr_agrees_slip"]
+            ck.extra["reply_parts_as_request_parts_explains_every_case"] = slip_ok
             # the implementation is ONE program: prefer the fewest switches that explain every case
             # of the run; otherwise the fewest that explain the case at hand
             whole = [c for c in combos if not bad[c]]
@@ -1058,7 +1214,10 @@ def run(ck):
                 else:
                     pool = [c for c in pool
                             if all(REPAIRED[k][0] in cases[i][1]["features"] for k in range(4) if c[k])]
-                if pool:
+                if not whole and slip_ok and cases[i][1]["out_parts"]:
+                    returned[i] = [(KEY_REPLY_PART, "the request Header carries an entry for a header part the "
+                                    "operation declares for its REPLY only (soap:header inside wsdl:output)")]
+                elif pool:
                     returned[i] = [REPAIRED[k] for k in range(4) if pool[0][k]]
             if not whole and len(returned) < len(suspects):
                 # some failing case is NOT what the old code did: something else changed, and a match
@@ -1112,11 +1271,14 @@ def run(ck):
             disagree.add(i)
 
     ck.rule = ("one hand-written interface (3 header parts: simple global element, nillable complex global element "
-               "in another namespace, type= part) with 14 fixed configurations incl. the input classes of the four repaired defects, "
+               "in another namespace, type= part) with 19 fixed configurations (3 calls each) incl. the input classes of the four repaired defects, "
                "and 3 prefix-rebinding probes; "
                "generated abstract schemas (1-3 namespaces) x two operations with 0..3 declared header parts x "
                "soapheaders shapes {unset, single value/Element/None, tuple/list positional with 0..k+2 values, "
-               "None and list-valued entries (items: values, None), surplus values, ready-made Elements (also the same object twice) interleaved, dict by "
+               "None and list-valued entries (items: values, None), surplus values, ready-made Elements as part values "
+               "in the dict form (also one object for two parts; >= 2 calls), reply-side soap:header declarations "
+               "(input parts again and/or parts of their own message) with matching dict keys / surplus values, "
+               "ready-made Elements (also the same object twice) interleaved, dict by "
                "part name with missing/None/list/unknown keys} x wsse {none, Security with 0..3 tokens: "
                "UsernameToken with/without password, digest, nonce (given/generated), encoding flag, created "
                "(given/now/invalid); Timestamp} x call sequences of length 1..%d reusing the same objects, some "
